@@ -74,6 +74,10 @@ def resolve_is_aggregate(values: list[bool | None]) -> bool | None:
 
 
 def format_quotes(value: Any, quote_char: str | None) -> str:
+    if quote_char:
+        # a quote character inside an identifier or string is written twice (standard SQL escaping),
+        # otherwise the name / value ends early and the rest is read as SQL
+        value = str(value).replace(quote_char, quote_char * 2)
     return "{quote}{value}{quote}".format(value=value, quote=quote_char or "")
 
 
